@@ -568,6 +568,8 @@ def wrapper_defaults(fi):
 
 # --------------------------------------------------------------------------------------------------------- self examples
 SELF_EXAMPLES = [
+    ('shadowed-literal-branch', "def f(s):\n  if s.upper().startswith('C'):\n    return 4\n  elif s.upper() == 'C|':\n    return 2\n  elif s.lower() == 'none':\n    return 0\n", BAD),
+    ('shadowed-literal-branch', "def f(s):\n  if s.upper() == 'C':\n    return 4\n  elif s.upper() == 'C|':\n    return 2\n  elif s.lower() == 'none':\n    return 0\n", OK),
     ('misaligned-index', 'def f(roots):\n  cands = [g(r) for r in roots]\n  named = [c for c in cands if c is not None]\n  sizes = [len(c) for c in named]\n  i = sizes.index(max(sizes))\n  return roots[i], named[i]\n', BAD),
     ('misaligned-index', 'def f(roots):\n  cands = [g(r) for r in roots]\n  sizes = [len(c) for c in cands]\n  i = sizes.index(max(sizes))\n  return roots[i], cands[i]\n', OK),
     ('dropped-pop', 'def f(self, n):\n  if self.ev:\n    last = self.ev.pop()\n    if last.kind == 1:\n      if last.v < 9:\n        n += last.v\n      else:\n        self.ev.append(last)\n  self.ev.append(n)\n', BAD),
@@ -811,6 +813,51 @@ def misaligned_indexes(fn):
   return out
 
 
+def shadowed_literal_branches(fn):
+  """if / elif chains that dispatch on a text: a branch written for the literal L (`s == L`, `s.upper() == L`, `s in (L, ...)`) is
+  reached only if every earlier test of the chain is false for L.  An earlier test that is true for L (a `startswith` that became
+  too wide, an `in` that lists L too) takes the input the later branch was written for."""
+  from sa import strscen
+  out = []
+  seen = set()
+  for top in ast.walk(fn):
+    if not isinstance(top, ast.If) or id(top) in seen:
+      continue
+    chain, cur = [], top
+    while isinstance(cur, ast.If):
+      seen.add(id(cur))
+      chain.append(cur)
+      cur = cur.orelse[0] if len(cur.orelse) == 1 and isinstance(cur.orelse[0], ast.If) else None
+    if len(chain) < 2:
+      continue
+    for k, br in enumerate(chain[1:], 1):
+      t = br.test
+      if not (isinstance(t, ast.Compare) and len(t.ops) == 1 and isinstance(t.ops[0], (ast.Eq, ast.In))):
+        continue
+      subj, lit = t.left, t.comparators[0]
+      lits = [lit.value] if isinstance(lit, ast.Constant) and isinstance(lit.value, str) else (
+          [x.value for x in lit.elts] if isinstance(lit, (ast.Tuple, ast.List, ast.Set)) and all(isinstance(x, ast.Constant) and isinstance(x.value, str) for x in lit.elts) else None)
+      if not lits:
+        continue
+      base = subj
+      while isinstance(base, ast.Call) and isinstance(base.func, ast.Attribute) and base.func.attr in ('upper', 'lower', 'strip') and not base.args:
+        base = base.func.value
+      if not isinstance(base, (ast.Name, ast.Attribute, ast.Subscript)):
+        continue
+      for L in lits:
+        env = {norm_text(base): L}
+        if strscen.tv(t, env) is not True:
+          continue        # the literal does not even satisfy its own branch in this spelling (case): nothing to say
+        for j, prev in enumerate(chain[:k]):
+          if strscen.tv(prev.test, env) is True:
+            out.append(Site('shadowed-literal-branch', br, BAD, 'the branch for %s = %r (`%s`) is never reached with that text: the earlier test `%s` of the same chain is already true for it' % (
+                norm_text(base), L, norm_text(t)[:50], norm_text(prev.test)[:60])))
+            break
+        else:
+          out.append(Site('shadowed-literal-branch', br, OK, 'the branch for %r is reachable: every earlier test of the chain is false or undecided for it' % L))
+  return out
+
+
 def dropped_pops(fn):
   """`x = C.pop(...)` in a function whose job is to *add* to C: on every way out (a return, the end of the function, the end of the
   loop body the pop sits in) the removed element has been put back or used - read somewhere other than in a branch condition.  A
@@ -900,6 +947,7 @@ def dropped_pops(fn):
 
 DETECT = {
     'dropped-pop': lambda fn, mod: dropped_pops(fn),
+    'shadowed-literal-branch': lambda fn, mod: shadowed_literal_branches(fn),
     'misaligned-index': lambda fn, mod: misaligned_indexes(fn),
     'neg-zero-slice': lambda fn, mod: neg_zero_slices(fn),
     'previous-wraps': lambda fn, mod: previous_wraps(fn),
